@@ -268,6 +268,20 @@ static void all_bytes(void) {
 static void long_tokens(void) {
     char buf[700];
     int n, k, v;
+    {   /* block headers that announce more data than there is, with lengths at and around the limits of 8/16/31-bit counters: nothing may be
+         * recognised and the cursor stays inside the input */
+        static const char * hdrs[] = {"#3127", "#3128", "#3255", "#3256", "#532767", "#532768", "#540000", "#565535", "#565536", "#599999", "#6100000", "#72147483", "#92147483647",
+                                      "#92147483648", "#94294967295", "#94294967296", "#9999999999", "#10", "#200", "#3000"};
+        for (k = 0; k < (int) (sizeof hdrs / sizeof hdrs[0]); k++) for (v = 0; v < 3; v++) {
+            int hl;
+            if (!MC_CASE()) continue;
+            mc_case_tag = "block-header-without-data"; mc_case_s[0] = (const unsigned char *) hdrs[k]; mc_case_n[0] = strlen(hdrs[k]); mc_case_i[0] = v;
+            hl = snprintf(buf, sizeof buf, "%s%s", hdrs[k], v == 0 ? "" : v == 1 ? "a" : "ab\n");
+            check_token(&recs[7], buf, hl);
+            check_token(&recs[14], buf, hl);
+            { char u[64]; int ul = snprintf(u, sizeof u, "A %s", buf); check_unit(u, ul); }
+        }
+    }
     for (n = 0; n <= 320; n++) {
         for (v = 0; v < 4; v++) {
             int hl, total;
